@@ -12,9 +12,18 @@ Definition step (st : state) (o : op) : state * obs :=
   | OEnvMap => (st, obs_env (envmap s))
   | OCopy => ({| stacks := stacks st ++ [copy s]; cur := cur st |}, OL [])
   | OSwitch i => ({| stacks := stacks st; cur := i |}, OL [])
-  | OForEach p => (st, OL (map obs_of_val (for_each s p)))
-  | OGetString p => (st, match get_string s p with Some x => OL [OS "some"; OA x] | None => OL [OS "none"] end)
-  | OGetInt p => (st, match get_int s p with Some z => OL [OS "some"; OA (dec_Z z)] | None => OL [OS "none"] end)
+  | OForEach p => (st, match for_each_map s p with
+                        | Some l => OL (OS "unordered" :: map OA l)
+                        | None => OL (map obs_of_val (for_each s p)) end)
+  | OGetString p => (st, match resolve s p with
+                          | Some v => if printable_val v
+                                      then match get_string s p with Some x => OL [OS "some"; OA x] | None => OL [OS "none"] end
+                                      else OL [OS "address-inside"]
+                          | None => OL [OS "none"] end)
+  | OGetInt p => (st, match resolve s p with
+                       | Some (VFloat _ _ _) => OL [OS "float-not-modelled"]
+                       | _ => match get_int s p with Some z => OL [OS "some"; OA (dec_Z z)] | None => OL [OS "none"] end
+                       end)
   | OGetSlice p => (st, match get_slice s p with Some l => OL (OS "some" :: map obs_of_val l) | None => OL [OS "none"] end)
   | OGetMap p => (st, match get_map s p with Some m => OL [OS "some"; obs_env m] | None => OL [OS "none"] end)
   | OSplit p => (st, obs_list (split_path p))
